@@ -126,6 +126,7 @@ type dNode struct {
 	lastGroup     map[string]*key.Group // C20: what this node wrote last, per beacon id
 	lastShare     map[string]*key.Share
 	finishedAt    map[uint32]time.Time // when this node recorded each epoch as completed
+	infoFromMembers int                // chain-info answers a follower received from nodes of the chain
 }
 
 func (n *dNode) bumpRoute() {
